@@ -1653,9 +1653,12 @@ func (e *executor) executeRowBSIGroupShard(ctx context.Context, index string, c 
 			return NewRow(), nil
 		}
 
-		// LT[E] and GT[E] should return all not-null if selected range fully encompasses valid bsiGroup range.
+		// LT[E] and GT[E] should return all not-null if selected range fully encompasses valid bsiGroup range
+		// or the range of values the current bit depth can hold.
 		if (cond.Op == pql.LT && value > bsig.Max) || (cond.Op == pql.LTE && value >= bsig.Max) ||
-			(cond.Op == pql.GT && value < bsig.Min) || (cond.Op == pql.GTE && value <= bsig.Min) {
+			(cond.Op == pql.GT && value < bsig.Min) || (cond.Op == pql.GTE && value <= bsig.Min) ||
+			(cond.Op == pql.LT && value > bsig.bitDepthMax()) || (cond.Op == pql.LTE && value >= bsig.bitDepthMax()) ||
+			(cond.Op == pql.GT && value < bsig.bitDepthMin()) || (cond.Op == pql.GTE && value <= bsig.bitDepthMin()) {
 			return frag.notNull()
 		}
 
